@@ -120,7 +120,7 @@ def regen():
     return rc, out
 
 
-def build_proofs(pid, mods, log):
+def build_proofs(pid, mods, log, tier='quick'):
     """lake build the theorem modules; audit axioms.  Returns dict with obligations etc."""
     res = {'obligations': 0, 'discharged': 0, 'failed': [], 'lean_errors': '', 'theorems': [],
            'axioms': {}, 'forbidden': []}
@@ -178,12 +178,22 @@ def build_proofs(pid, mods, log):
         for (n, _, _) in thms:
             if n not in res['axioms']:
                 failed.add('no axiom report for ' + n)
+    # thorough: independent re-check of the compiled modules with leanchecker
+    if tier == 'thorough' and rc == 0:
+        for mod in mods:
+            res['obligations'] += 1
+            t = time.time()
+            rc3, out3 = sh(['lake', 'env', 'leanchecker', mod], cwd=LEAN, timeout=3600)
+            log.write('--- leanchecker %s (rc=%d, %.1fs)\n%s\n' % (mod, rc3, time.time() - t, out3[-2000:]))
+            if rc3 != 0:
+                failed.add('leanchecker rejects ' + mod)
+            res.setdefault('leanchecker', []).append({'module': mod, 'rc': rc3})
     res['failed'] = sorted(failed)
     if rc == 0 and not failed:
         res['discharged'] = res['obligations']
     else:
         bad_thms = set(x for x in failed if x in res['theorems'])
-        res['discharged'] = max(0, 2 * (len(thms) - len(bad_thms)) - (len(failed) - len(bad_thms)))
+        res['discharged'] = max(0, res['obligations'] - 2 * len(bad_thms) - (len(failed) - len(bad_thms)))
         if rc != 0:
             res['discharged'] = min(res['discharged'], max(0, res['obligations'] - 1))
     return res
@@ -346,7 +356,7 @@ def check_property(pid, tier, seed):
     with BuildLock():
         rc, out = regen()
         log.write('--- regen: ' + out + '\n')
-        proof = build_proofs(pid, mods, log)
+        proof = build_proofs(pid, mods, log, tier)
         drc, dout = build_driver(log)
         hrc, hout = build_harness(log)
         if hrc == 0 and P.get('needs_cli'):
@@ -457,7 +467,9 @@ def check_property(pid, tier, seed):
         'theorems': proof['theorems'],
         'failed_obligations': proof['failed'],
         'theorem_modules': mods,
+        'leanchecker': proof.get('leanchecker', 'thorough tier only'),
         'model_modules': [m for m in imported if not m.startswith('Proofs')],
+        'float_noise_agreements': props.NOISE['count'],
         'programs': max(n_req, 1),
         'disagreements_checked': n_dis,
         'evaluations': max(evaluations, 1),
